@@ -210,13 +210,21 @@ def gen_call(rng, case):
         entry = ['task', rng.choice(keys)]
     elif r < 0.7:
         entry = ['alltasks', rng.randrange(case['wbs'])]
-    elif r < 0.88:
+    elif r < 0.78:
         entry = ['pick', rng.randrange(case['wbs']), sorted(set(rng.choice(keys) for _ in range(rng.randint(0, 5))))]
-    else:
+    elif r < 0.85:
         entry = ['children', rng.choice(keys)]
+    else:
+        linked = sorted(set(case['tasks'][i]['k'] for l in case.get('links', []) for i in l)) or keys
+        entry = [rng.choice(['succs', 'preds', 'succs', 'preds', 'allsuccs', 'allpreds', 'allkids', 'allparents']), rng.choice(linked)]
     if rng.random() < 0.2:
         return {'entry': entry, 'via': 'repr', 'fields': None, 'children': True, 'theme': None}
-    return {'entry': entry, 'via': 'print', 'fields': gen_fields(rng, case['tasks']),
+    fields = gen_fields(rng, case['tasks'])
+    if entry[0] in ('succs', 'preds', 'allsuccs', 'allpreds', 'allkids', 'allparents') and rng.random() < 0.7:
+        dep = rng.sample(['predecessors', 'successors', 'parent'], rng.randint(1, 3))
+        fields = ['id'] + dep + ([f for f in (fields or []) if f not in dep + ['id']][:2])
+        rng.shuffle(fields)
+    return {'entry': entry, 'via': 'print', 'fields': fields,
             'fields_kind': rng.choice(['list'] * 6 + ['tuple', 'iter', 'gen']),
             'children': rng.random() < 0.65, 'theme': gen_theme(rng),
             'levels_kind': rng.choice(['list', 'list', 'tuple'])}
@@ -225,7 +233,7 @@ def gen_call(rng, case):
 def gen_sheet_case(rng):
     tasks = []
     used = set()
-    n_wbs = rng.choice([1, 1, 1, 2])
+    n_wbs = rng.choice([1, 1, 2, 2])
     budget = [rng.choice([1, 3, 5, 8, 12])]
     for _ in range(rng.choice([1, 1, 2, 3, 4])):
         if budget[0] <= 0:
@@ -248,6 +256,25 @@ def gen_sheet_case(rng):
             links.append([a, b])
     case = {'kind': 'sheet', 'wbs': n_wbs, 'tasks': tasks, 'links': links}
     case['calls'] = [gen_call(rng, case) for _ in range(rng.randint(3, 6))]
+    # aimed: a hub task linked with tasks of SEVERAL owners (two WBSs, detached trees); its successors / predecessors
+    # list is then printed with the dependency columns: whether a link is external depends on the row it is printed in
+    owners = {}
+    for i, t in enumerate(tasks):
+        owners.setdefault(t.get('wbs'), []).append(i)
+    if len(owners) >= 2 and rng.random() < 0.4:
+        hub = rng.randrange(len(tasks))
+        partners = []
+        for ow, members in sorted(owners.items(), key=lambda kv: str(kv[0])):
+            pool = [m for m in members if m != hub]
+            partners += rng.sample(pool, min(len(pool), rng.randint(1, 2)))
+        partners = [m for m in partners if m != hub]
+        rng.shuffle(partners)
+        as_succ = rng.random() < 0.5
+        for m in partners:
+            case['links'].append([m, hub] if as_succ else [hub, m])       # [a, b]: b becomes a predecessor of a
+        fields = ['id'] + rng.sample(['predecessors', 'successors', 'parent'], rng.randint(1, 3))
+        case['calls'].append({'entry': ['succs' if as_succ else 'preds', tasks[hub]['k']], 'via': 'print', 'fields': fields,
+                              'fields_kind': 'list', 'children': rng.random() < 0.5, 'theme': gen_theme(rng), 'levels_kind': 'list'})
     return case
 
 
